@@ -28,11 +28,19 @@ COUNT_ARG_FNS = ("checked_shl", "checked_shr", "wrapping_shl", "wrapping_shr", "
 _anchor_cache = {}
 
 
+# The storage a property's structures are built on, where the property's own anchors do not already name it: the plain bitvector
+# keeps its bits (and takes its count of ones) in a RawVector; the sparse and run-length vectors in IntVector / RawVector / BitVector.
+# A width defect there (a count accumulated in u32) is a defect of every structure on top.
+STORAGE = {"C01": ["src/raw_vector.rs"], "C10": ["src/raw_vector.rs"], "C11": ["src/raw_vector.rs", "src/int_vector.rs"],
+           "C16": ["src/raw_vector.rs", "src/int_vector.rs", "src/bit_vector.rs"], "C19": ["src/raw_vector.rs"]}
+
+
 def anchored_files(prop):
     if not _anchor_cache:
         for l in open(os.path.join(VERIF, "properties.jsonl")):
             p = json.loads(l)
-            _anchor_cache[p["id"]] = FileSet(f for f in p["anchors"].get("files", []) if f.endswith(".rs"))
+            fs = [f for f in p["anchors"].get("files", []) if f.endswith(".rs")]
+            _anchor_cache[p["id"]] = FileSet(fs + [f for f in STORAGE.get(p["id"], []) if f not in fs])
     return _anchor_cache.get(prop, [])
 
 
@@ -149,7 +157,21 @@ def scan(F, files=None):
             t = b.term_of_operand(st["rv"]["o"])
             if W[frm] > W[to]:
                 bound = small_bound(F, b, t, bi)
+                from guards import strip_casts as _sc
+                t_ = _sc(t)
+                if bound is None and t_[0] == "bin" and t_[1] == "Shr" and _sc(t_[3])[0] == "const" and isinstance(_sc(t_[3])[1], int) and 0 <= _sc(t_[3])[1] < W[frm]:
+                    bound = (1 << (W[frm] - _sc(t_[3])[1])) - 1       # what is left of a W-bit value after a shift down by a constant
                 if bound is not None and bound < (1 << W[to]):
+                    continue
+                # a value split into parts, none dropped: the same function also takes `(x >> w) as ..` of the same x
+                from guards import strip_casts
+                upper = False
+                for _, _, st2 in b.stmts():
+                    if st2["s"] == "assign" and st2["rv"]["r"] == "cast" and st2["rv"].get("kind") == "IntToInt":
+                        t2 = strip_casts(b.term_of_operand(st2["rv"]["o"]))
+                        if t2[0] == "bin" and t2[1] == "Shr" and strip_casts(t2[2]) == strip_casts(t) and strip_casts(t2[3])[:2] == ("const", W[to]):
+                            upper = True
+                if upper:
                     continue
                 us = uses_of(b, st["lhs"]["l"])
                 if us and all(k in ("shift-count", "count-arg") for k, _ in us):
@@ -159,6 +181,11 @@ def scan(F, files=None):
                 inner = t
                 while isinstance(inner, tuple) and inner and inner[0] == "cast":
                     inner = inner[1]
+                if isinstance(inner, tuple) and inner and inner[0] == "call" and inner[1].split("::")[-1].split("<")[0] in ("sum", "product") and \
+                        "Iterator" in inner[1] and not any(isinstance(x, tuple) and x and x[0] == "array" for x in subterms(inner)):
+                    # an accumulation over an iterator of unknown length carried out in the narrow type: `.sum::<u32>() as usize`
+                    w2.append((b.name, "%s computed in %s then widened to %s: %s" % (inner[1].split("::")[-1], frm, to, tstr(inner)[:60]), loc(st["sp"])))
+                    continue
                 if isinstance(inner, tuple) and inner and inner[0] == "bin" and inner[1] in ("Add", "Mul", "Shl", "Sub"):
                     tot = small_bound(F, b, inner, bi)
                     if tot is not None and tot < (1 << W[frm]):
